@@ -349,6 +349,41 @@ func main() {
 			}
 		}
 	}
+	// counts no input can satisfy (2^62 .. 2^64-1, i.e. also values that are negative as a Go int) in every
+	// count position, followed by bytes that form a complete transaction if the count is taken as zero
+	{
+		txid := bytes.Repeat([]byte{0x22}, 32)
+		in := append(append(append([]byte{}, txid...), 0, 0, 0, 0, 1, 0x51), 0xff, 0xff, 0xff, 0xff)
+		inExt := append(append([]byte{}, in...), 9, 0, 0, 0, 0, 0, 0, 0, 1, 0x53)
+		out := []byte{5, 0, 0, 0, 0, 0, 0, 0, 1, 0x6a}
+		for _, huge := range []uint64{1 << 62, 1 << 63, 1<<63 + 1, 1<<64 - 1, 1<<64 - 2, 1<<32 + 1} {
+			hv := varintNonMinimal(huge, 9)
+			for _, ext := range []bool{false, true} {
+				head := []byte{1, 0, 0, 0}
+				oneIn := in
+				if ext {
+					head = append(head, 0, 0, 0, 0, 0, 0xef)
+					oneIn = inExt
+				}
+				cat := func(parts ...[]byte) []byte {
+					var b []byte
+					for _, p := range parts {
+						b = append(b, p...)
+					}
+					return b
+				}
+				lock := []byte{0, 0, 0, 0}
+				parseCase("huge-count", cat(head, hv, []byte{1}, out, lock))              // inputs
+				parseCase("huge-count", cat(head, hv, []byte{0}, lock))                    // inputs, no outputs
+				parseCase("huge-count", cat(head, []byte{1}, oneIn, hv, lock))             // outputs
+				parseCase("huge-count", cat(head, []byte{1}, oneIn, hv, out, lock))        // outputs, one present
+				parseCase("huge-count", cat(head, []byte{1}, txid, []byte{0, 0, 0, 0}, hv, []byte{0xff, 0xff, 0xff, 0xff, 0}, lock)) // unlocking script length
+				parseCase("huge-count", cat(head, []byte{1}, oneIn, []byte{1}, []byte{5, 0, 0, 0, 0, 0, 0, 0}, hv, lock))       // locking script length
+				listCase("huge-count", cat(hv))
+				listCase("huge-count", cat(hv, head, []byte{0, 0}, lock))
+			}
+		}
+	}
 	// block lists
 	nList := 40
 	if c.Thorough() {
@@ -383,6 +418,6 @@ func main() {
 		listCase(kind, append(bt.VarInt(cnt).Bytes(), body...))
 	}
 	runReqs()
-	c.Stats.Rule = "structured generator (boundary field values, script lengths {0,1,2,3,25,75,76,107,252,253,254,300,65535,65536,70000}, counts {0..3,252,253,254,300}) -> build cases; byte-level stream: valid/concatenated/truncated(every offset of one tx)/trailing/bit-flipped/random/hostile-length/non-minimal-varint-in-every-position, and counted lists. distinct = distinct input bytes; non-trivial = build cases with at least one input or output, parse cases the decoder accepts, lists with at least one tx"
+	c.Stats.Rule = "structured generator (boundary field values, script lengths {0,1,2,3,25,75,76,107,252,253,254,300,65535,65536,70000}, counts {0..3,252,253,254,300}) -> build cases; byte-level stream: valid/concatenated/truncated(every offset of one tx)/trailing/bit-flipped/random/hostile-length/non-minimal-varint-in-every-position/counts 2^62..2^64-1 in every count and length position followed by a complete transaction for count zero, and counted lists. distinct = distinct input bytes; non-trivial = build cases with at least one input or output, parse cases the decoder accepts, lists with at least one tx"
 	c.Finish()
 }
